@@ -79,6 +79,7 @@ class PyReader:
         self.depth = 0
         self.hazards: list = []
         self._globals_cache: dict = {}
+        self._decorated: dict = {}
         self._globals_busy: set = set()
 
     def _imports(self, module: str, name: str) -> bool:
@@ -110,10 +111,34 @@ class PyReader:
         fn = (local_fns or {}).get(name) or self.functions.get(name)
         if fn is None:
             raise AnalysisError(f"abstract evaluation ({self.where}): function {name} not found")
+        if fn.decorator_list and name in self.functions and not (local_fns or {}).get(name):
+            return self.apply_value(self.decorated(name), args, fn, local_fns or {}, kwargs)
+        return self.call_def(fn, args, kwargs, local_fns)
+
+    def decorated(self, name: str):
+        """the value a decorated module-level function name is bound to: decorators of this module applied to the raw function"""
+        if name in self._decorated:
+            return self._decorated[name]
+        fn = self.functions[name]
+        val = ("rawfn", fn)
+        for d in reversed(fn.decorator_list):
+            if isinstance(d, ast.Name) and d.id in self.functions:
+                val = self.call(d.id, [val])
+            elif dotted(d) in self.TRANSPARENT_DECORATORS:
+                continue
+            else:
+                raise AnalysisError(f"abstract evaluation ({self.where}): decorator `{norm(d, 40)}` of {name} is outside the supported subset")
+        self._decorated[name] = val
+        return val
+
+    TRANSPARENT_DECORATORS = ("staticmethod", "property", "functools.wraps", "cacheit", "classmethod")
+
+    def call_def(self, fn: ast.FunctionDef, args: list, kwargs: Optional[dict] = None, local_fns: Optional[dict] = None, closure_env: Optional[dict] = None):
+        name = fn.name
         if self.depth >= self.depth_limit:
             raise AnalysisError(f"abstract evaluation ({self.where}): call depth bound exceeded at {name}")
         a = fn.args
-        env: dict = {}
+        env: dict = dict(closure_env or {})
         params = [p.arg for p in a.posonlyargs + a.args]
         defaults = [None] * (len(params) - len(a.defaults)) + list(a.defaults)
         for i, p in enumerate(params):
@@ -179,11 +204,7 @@ class PyReader:
             elif isinstance(s, ast.AnnAssign) and s.value is not None:
                 self.assign(s.target, self.ev(s.value, env, fns), env, s)
             elif isinstance(s, ast.If):
-                t = self.ev(s.test, env, fns)
-                if t is None:
-                    t = False
-                if not isinstance(t, bool):
-                    self.fail(s.test, "condition not decidable on abstract values")
+                t = self.truthy(self.ev(s.test, env, fns), s.test)
                 self.block(s.body if t else s.orelse, env, fns)
             elif isinstance(s, ast.For):
                 it = self.ev(s.iter, env, fns)
@@ -225,7 +246,7 @@ class PyReader:
                     except Raised as r:
                         handler = None
                         for h in s.handlers:
-                            names = [] if h.type is None else self.class_names(h.type)
+                            names = [] if h.type is None else [(dotted(x) or '?').split('.')[-1] for x in (h.type.elts if isinstance(h.type, ast.Tuple) else [h.type])]
                             if h.type is None or "Exception" in names or "BaseException" in names or r.exc.split(".")[-1] in names \
                                     or (r.exc.split(".")[-1] == "UnitsError" and "ValueError" in names):
                                 handler = h
@@ -313,7 +334,9 @@ class PyReader:
         if isinstance(n, ast.Name):
             if n.id in env:
                 return env[n.id]
-            if n.id in fns or n.id in self.functions:
+            if n.id in fns:
+                return ("closure", fns[n.id], env, fns)  # a nested function as a value: keeps the variables of its defining scope
+            if n.id in self.functions:
                 return FnRef(n.id)
             g = self.global_value(n)
             if g is not None:
@@ -370,8 +393,8 @@ class PyReader:
             v = self.ev(n.operand, env, fns)
             if isinstance(n.op, ast.USub):
                 return -v if isinstance(v, int) else op("neg", self.scalar(v, n))
-            if isinstance(n.op, ast.Not) and isinstance(v, bool):
-                return not v
+            if isinstance(n.op, ast.Not):
+                return not self.truthy(v, n)
             self.fail(n, "unary operator")
         if isinstance(n, ast.BinOp):
             l, r = self.ev(n.left, env, fns), self.ev(n.right, env, fns)
@@ -423,23 +446,18 @@ class PyReader:
                 return {ast.Lt: l < r, ast.LtE: l <= r, ast.Gt: l > r, ast.GtE: l >= r}[type(o)]
             self.fail(n, "comparison")
         if isinstance(n, ast.BoolOp):
-            vals = []
+            # Python's and/or: the value of the deciding operand
+            last = None
             for v in n.values:
-                x = self.ev(v, env, fns)
-                if not isinstance(x, bool):
-                    self.fail(v, "non-boolean operand")
-                vals.append(x)
-                if isinstance(n.op, ast.And) and not x:
-                    return False
-                if isinstance(n.op, ast.Or) and x:
-                    return True
-            return all(vals) if isinstance(n.op, ast.And) else any(vals)
+                last = self.ev(v, env, fns)
+                t_ = self.truthy(last, v)
+                if isinstance(n.op, ast.And) and not t_:
+                    return last
+                if isinstance(n.op, ast.Or) and t_:
+                    return last
+            return last
         if isinstance(n, ast.IfExp):
-            t = self.ev(n.test, env, fns)
-            if t is None:
-                t = False  # SymPy's three-valued assumptions: an undetermined query is falsy
-            if not isinstance(t, bool):
-                self.fail(n.test, "condition not decidable")
+            t = self.truthy(self.ev(n.test, env, fns), n.test)  # None (SymPy's undetermined assumption query) is falsy
             return self.ev(n.body if t else n.orelse, env, fns)
         if isinstance(n, (ast.List, ast.Tuple)):
             out = []
@@ -519,6 +537,10 @@ class PyReader:
                 self.fail(n, "lambda arity")
             cenv.update(dict(zip(params, args)))
             return self.ev(lam.body, cenv, fns)
+        if isinstance(fval, tuple) and len(fval) == 4 and fval[0] == "closure":
+            return self.call_def(fval[1], args, kwargs, fval[3], closure_env=fval[2])
+        if isinstance(fval, tuple) and len(fval) == 2 and fval[0] == "rawfn":
+            return self.call_def(fval[1], args, kwargs, fns)
         if isinstance(fval, tuple) and len(fval) == 3 and fval[0] == "bound":
             return self.call(fval[1], [fval[2]] + list(args), kwargs, fns)
         if isinstance(fval, tuple) and len(fval) == 2 and fval[0] == "operator" and len(args) == 2:
@@ -526,6 +548,17 @@ class PyReader:
             ast.copy_location(fake, n)
             return self.ev(fake, {"__op_l__": args[0], "__op_r__": args[1]}, fns)
         self.fail(n, "call of a value that is not a known function")
+
+    def truthy(self, v, n: ast.AST) -> bool:
+        if v is None:
+            return False
+        if isinstance(v, (bool, int, str, list, dict)):
+            return bool(v)
+        if isinstance(v, T):
+            if v.op == "num":
+                return v.val != 0
+            self.fail(n, "truth value of a symbolic term")
+        return True  # objects of the abstract domains (systems, vectors, dimensions, tokens)
 
     def scalar(self, v, n: ast.AST) -> T:
         if isinstance(v, T):
@@ -789,6 +822,8 @@ class PyReader:
             return op("diff", self.scalar(args[0], n), *[self.scalar(a, n) for a in args[1:]])
         if isinstance(n.func, ast.Name) and n.func.id in env and isinstance(env[n.func.id], (FnRef, tuple)):
             return self.apply_value(env[n.func.id], args, n, fns, kwargs)
+        if isinstance(n.func, ast.Name) and name in fns:
+            return self.call_def(fns[name], args, kwargs, fns, closure_env=env)  # a nested function reads the variables of the enclosing call
         if name in fns or name in self.functions:
             if isinstance(n.func, ast.Name) or f.startswith("CoordinateSystem.") is False:
                 fn_ = fns.get(name) or self.functions.get(name)
